@@ -152,6 +152,75 @@ class Run:
         return 1 if new else 0
 
 
+_VALUE_CODE = r"""
+import json, sys
+sys.setrecursionlimit(1000)
+from mc import env
+recs = json.load(open(sys.argv[1]))
+out = {}
+for i, code in recs:
+    ns = dict(env.NS)
+    try:
+        exec(code, ns)
+        out[i] = repr(ns.get('OUT'))
+    except BaseException as e:
+        out[i] = 'EXC:' + type(e).__name__
+print('VALUES ' + json.dumps(out))
+"""
+
+
+def confirm_values(records):
+    """records carrying `value_code` claim that a value differs between interpreter configurations.  They are
+    confirmed iff two real PYTHONHASHSEEDs (no set-order seam) actually produce different values."""
+    import tempfile
+    from concurrent.futures import ThreadPoolExecutor
+    if not records:
+        return [], []
+    td = tempfile.mkdtemp(prefix='confirmv_')
+    seen = {i: {} for i in range(len(records))}
+
+    def one(seed, items):
+        path = os.path.join(td, 'v_%d.json' % seed)
+        with open(path, 'w', encoding='utf-8') as fh:
+            json.dump(items, fh)
+        e = dict(os.environ)
+        e.update({'PYTHONHASHSEED': str(seed), 'PREGEX_VERIF_VSET': '0', 'PYTHONPATH': VERIF, 'PYTHONWARNINGS': 'ignore',
+                  'PYTHONDONTWRITEBYTECODE': '1'})
+        r = subprocess.run([sys.executable, '-c', _VALUE_CODE, path], capture_output=True, text=True, env=e, cwd=VERIF, timeout=1800)
+        for line in r.stdout.splitlines():
+            if line.startswith('VALUES '):
+                return seed, json.loads(line[7:])
+        raise Internal('value confirmation subprocess failed: ' + r.stderr[-600:])
+    try:
+        base = 64 * int(os.environ.get('VERIF_SEED', '0') or 0)
+        for rno in range(8):
+            todo = [i for i in seen if len(set(seen[i].values())) < 2]
+            if not todo:
+                break
+            items = [(i, records[i]['value_code']) for i in todo[:CONFIRM_CAP]]
+            with ThreadPoolExecutor(8) as ex:
+                for seed, vals in ex.map(lambda s_: one(s_, items), range(base + 8 * rno, base + 8 * rno + 8)):
+                    for i, v in vals.items():
+                        seen[int(i)][seed] = v
+    finally:
+        import shutil
+        shutil.rmtree(td, ignore_errors=True)
+    ok, dropped = [], []
+    for i, r in enumerate(records):
+        vals = seen[i]
+        distinct = {}
+        for seed in sorted(vals):
+            distinct.setdefault(vals[seed], seed)
+        if len(distinct) >= 2:
+            (va, sa), (vb, sb) = list(distinct.items())[:2]
+            r['hashseeds'] = [sa, sb]
+            r['values'] = [va[:300], vb[:300]]
+            ok.append(r)
+        else:
+            dropped.append(r)
+    return ok, dropped
+
+
 _CONFIRM_CODE = r"""
 import json, sys
 sys.setrecursionlimit(1000)
@@ -176,6 +245,11 @@ def confirm(records):
     fail again under at least one real interpreter configuration are reported (DESIGN.md 1.3, 6.3)."""
     if not records or os.environ.get('PREGEX_VERIF_NOCONFIRM') == '1':
         return records, []
+    vrecs = [r for r in records if r.get('value_code')]
+    if vrecs:
+        okv, dropv = confirm_values(vrecs)
+        rest, droprest = confirm([r for r in records if not r.get('value_code')])
+        return rest + okv, droprest + dropv
     import tempfile
     from concurrent.futures import ThreadPoolExecutor
     pending = {i: r for i, r in enumerate(records[:CONFIRM_CAP])}
